@@ -82,12 +82,23 @@ def files_digest(d: Path) -> str:
     return m.hexdigest()[:20]
 
 
+SHADOW = {}          # unrelated entries every working directory of this process holds (job["cwd_files"])
+
+
 def in_tmp(fn):
     old = os.getcwd()
     with tempfile.TemporaryDirectory(prefix="cijverif.life.") as t:
+        for name, content in SHADOW.items():
+            (Path(t) / name).parent.mkdir(parents=True, exist_ok=True)
+            (Path(t) / name).write_text(content)
         os.chdir(t)
         try:
             fn()
+            for name in SHADOW:                     # the unrelated entries are not output (and must still be what they were)
+                f = Path(t) / name
+                if not f.exists() or f.read_text() != SHADOW[name]:
+                    return "UNRELATED-ENTRY-TOUCHED:" + name
+                f.unlink()
             return files_digest(Path(t))
         finally:
             os.chdir(old)
@@ -95,6 +106,7 @@ def in_tmp(fn):
 
 def main():
     job = json.loads(Path(sys.argv[1]).read_text())
+    SHADOW.update(job.get("cwd_files", {}))
     out = open(job["out"], "w")
 
     home = os.getcwd()
@@ -160,10 +172,16 @@ def main():
                 with tempfile.TemporaryDirectory(prefix="cijverif.cli.") as t:
                     for extra in job.get("cwd_entries", []):
                         (Path(t) / extra).mkdir()
+                    for name, content in job.get("cwd_files", {}).items():
+                        (Path(t) / name).parent.mkdir(parents=True, exist_ok=True)
+                        (Path(t) / name).write_text(content)
                     r = subprocess.run([sys.executable, "-m", "cij.cli.cij", "run", job["datasets"][c]], cwd=t, capture_output=True, text=True,
                                        env=dict(os.environ))
                     for extra in job.get("cwd_entries", []):
                         (Path(t) / extra).rmdir()
+                    for name in job.get("cwd_files", {}):
+                        if (Path(t) / name).exists():
+                            (Path(t) / name).unlink()
                     digest = files_digest(Path(t)) if r.returncode == 0 else "FAILED:" + r.stderr[-200:]
                 live["cli"] = (c, None)
                 if job["mode"] == "ref":
